@@ -70,5 +70,10 @@ let () = serve (fun fn req ->
      | j -> j)
   | "server_hist" ->
     of_hist (server_hist (SL.map j_stx (jlist (jfield req "server"))) (j_addr (jfield req "a")))
+  | "subscribe_plan" ->
+    let table = SL.map (fun p -> match jlist p with [a; h] -> (j_addr a, j_hist h) | _ -> raise (Model_error "bad status")) (jlist (jfield req "status")) in
+    let answer batch = SL.map (fun a -> try SL.assoc a table with Not_found -> raise (Model_error "no status")) batch in
+    of_list (fun (a, h) -> JArr [of_addr a; of_hist h])
+      (subscribe_plan (jnat (jfield req "b")) (SL.map j_addr (jlist (jfield req "addrs"))) answer)
   | "server_ok" -> of_bool (server_ok_b (SL.map j_stx (jlist (jfield req "server"))))
   | _ -> raise (Model_error ("unknown fn " ^ fn)))
